@@ -11,6 +11,11 @@ Permitted difference (property C04): with the optimiser ON an unused built-in ar
          enclosing failure-free, effect-free expression) has an unused result: both P[N:=0] and P[N:=1]
          evaluate to the implementation's outcome, directly or after further permitted skips (depth 3).  Such a case is
          compared against P[N:=0] and counted as `permitted_arith_skips`.
+Tie C2 : three-way comparison.  Every case is also compiled with gluon's own pipeline
+         (`Compileable::compile`, same settings as the run) and the REAL bytecode is executed by the
+         extracted model VM (coq/theories/VM/Machine.v, coq/extract/c01vm): its outcome must equal the
+         real VM's (else `eval:interp:…`) — and an eval-vs-real disagreement is localised: model VM = real
+         VM -> `eval:bytecode:…` (front end / translation / compiler), model VM = eval -> `eval:interp:…`.
 Tie C  : the extracted `eval` (coq/extract/c01) against gluon's `ThreadExt::run_expr` on
          corpus + all well-typed programs up to a small size + type-directed random programs with
          interaction combinators, each printed in two concrete-syntax styles and run with the
@@ -56,6 +61,30 @@ def classify(case, expected, observed, shrunk=None, opt_only=False):
     return origin + ":outcome:" + constructs
 
 
+def norm(s):
+    """untyped view used for the model VM: unit / empty record is `(data 0)`"""
+    return s.replace("(rcd)", "(data 0)")
+
+
+def vm_executed(v):
+    return not (v.startswith("(skip") or v == "(fuel)" or v.startswith("(err malformed") or v.startswith("(err model"))
+
+
+def localise(t, i, m, im):
+    """where does an eval-vs-real disagreement arise?  `bytecode`: the model VM on the real bytecode
+    agrees with the real VM (front end / core translation / compiler produced code that does not
+    implement the reference semantics); `interp`: the model VM agrees with the reference (the
+    real interpreter executes correct bytecode wrongly); `` when the model VM did not run it."""
+    vo = t.get("vo")
+    if not vo or i >= len(vo) or not vm_executed(vo[i]):
+        return ""
+    if norm(vo[i]) == norm(im):
+        return "bytecode:"
+    if norm(vo[i]) == norm(m):
+        return "interp:"
+    return "bytecode+interp:"
+
+
 def tie(ctx, tag="tie", extra=()):
     out_dir = os.path.join(ctx.run_dir, tag)
     os.makedirs(out_dir, exist_ok=True)
@@ -64,13 +93,25 @@ def tie(ctx, tag="tie", extra=()):
     model = ctx.build_model("c01")
     if model is None:
         return None
-    rc, out = ctx.run_harness("c01", out_dir=out_dir, extra=["model=" + model] + list(extra))
+    vmmodel = ctx.build_model("c01vm")
+    rc, out = ctx.run_harness("c01", out_dir=out_dir,
+                              extra=["model=" + model] + (["vmmodel=" + vmmodel] if vmmodel else []) + list(extra))
     if rc != 0:
         ctx.log("harness c01 failed:", out[-500:])
         ctx.harness_crash = out[-1500:]
         return None
     if not ctx.run_model(model, os.path.join(out_dir, "model_in.txt"), os.path.join(out_dir, "model_out.txt")):
         return None
+    vo = None
+    if vmmodel and ctx.run_model(vmmodel, os.path.join(out_dir, "vm_in.txt"), os.path.join(out_dir, "vm_out.txt")):
+        vo = common.read_lines(os.path.join(out_dir, "vm_out.txt"))
+    vm_shrunk = {}
+    for line in common.read_lines(os.path.join(out_dir, "vm_diffs.jsonl")) if os.path.exists(os.path.join(out_dir, "vm_diffs.jsonl")) else []:
+        try:
+            d = json.loads(line)
+            vm_shrunk[d["index"]] = d
+        except Exception:
+            pass
     mo = common.read_lines(os.path.join(out_dir, "model_out.txt"))
     io = common.read_lines(os.path.join(out_dir, "impl_out.txt"))
     cases = common.read_lines(os.path.join(out_dir, "cases.txt"))
@@ -93,7 +134,8 @@ def tie(ctx, tag="tie", extra=()):
             shrunk[d["index"]] = d
         except Exception:
             pass
-    return {"mo": mo, "io": io, "cases": cases, "sexps": sexps, "stats": stats, "shrunk": shrunk, "classes": classes, "dir": out_dir}
+    return {"mo": mo, "io": io, "cases": cases, "sexps": sexps, "stats": stats, "shrunk": shrunk, "classes": classes, "dir": out_dir,
+            "vo": vo, "vm_shrunk": vm_shrunk}
 
 
 def case_of(t, i):
@@ -172,6 +214,64 @@ def run(ctx):
     ctx.obligations.append(common.Obligation(
         "correspondence:eval-vs-run_expr", "correspondence", ran and not diffs,
         "%d cases compared, %d disagreements" % (n, len(diffs))))
+    # ---- three-way comparison: model VM (VM/Machine.v) on the REAL bytecode vs real VM vs eval ----
+    vm_divs = []
+    vm_ran = False
+    if t is not None and t.get("vo") is not None:
+        vo, io, mo = t["vo"], t["io"], t["mo"]
+        vm_ran = len(vo) == len(io)
+        executed = skipped = sampled_out = stuck = 0
+        for i in range(min(len(vo), len(io))):
+            v = vo[i]
+            if v == "(skip not-sampled)":
+                sampled_out += 1
+                continue
+            if not vm_executed(v):
+                skipped += 1
+                continue
+            executed += 1
+            if v.startswith("(stuck"):
+                stuck += 1
+            if norm(v) != norm(io[i]):
+                vm_divs.append(i)
+        considered = executed + skipped
+        frac = (executed / considered) if considered else 0.0
+        ctx.coverage["model_vm"] = {
+            "cases_with_bytecode_executed_by_model_vm": executed,
+            "skipped_unsupported_or_uncompilable": skipped,
+            "not_sampled (thorough tier: random programs beyond the first 15000)": sampled_out,
+            "executed_fraction": round(frac, 4),
+            "disagreements_with_real_vm": len(vm_divs),
+        }
+        ctx.coverage["traces_validated_against_impl"] = ctx.coverage.get("traces_validated_against_impl", 0) + executed
+        ctx.obligations.append(common.Obligation(
+            "correspondence:model-vm-on-real-bytecode", "correspondence", vm_ran and not vm_divs and frac >= 0.90,
+            "%d cases: model VM outcome on the real bytecode = real VM outcome (= eval unless reported above); "
+            "%d skipped, %.1f%% executed, %d disagreements" % (executed, skipped, 100 * frac, len(vm_divs))))
+        seen_keys = set()
+        for i in vm_divs:
+            if localise(t, i, mo[i], io[i]) and norm(mo[i]) != norm(io[i]):
+                continue  # already reported as an eval disagreement, with its localisation
+            d = t["vm_shrunk"].get(i, {})
+            sh = d.get("shrunk")
+            c = case_of(t, i)
+            cons = "+".join((sh or {}).get("constructs", [])) or "?"
+            key = "eval:interp:model-vm-vs-real:" + (vo[i].split()[0].strip("(") + "-vs-" + io[i].split()[0].strip("(")) + ":" + cons
+            if key in seen_keys:
+                continue
+            seen_keys.add(key)
+            ctx.violation(
+                key,
+                "the real VM and the model VM (vm/src/thread.rs semantics, VM/Machine.v) disagree on the same real bytecode: "
+                "model VM %s, real VM %s" % ((sh or {}).get("vm", vo[i])[:160], (sh or {}).get("impl", io[i])[:160]),
+                case={"source": (sh or c).get("source"), "sexp": (sh or c).get("sexp"), "style": c.get("style"),
+                      "optimize": c.get("optimize"), "bytecode": (sh or {}).get("bytecode")},
+                expected=(sh or {}).get("vm", vo[i]), observed=(sh or {}).get("impl", io[i]))
+    elif t is not None:
+        ctx.obligations.append(common.Obligation("correspondence:model-vm-on-real-bytecode", "correspondence", False,
+                                                 "the model VM (coq/extract/c01vm) could not be built or run"))
+    ctx.trusted.append("harness/src/mg/bytecode.rs (serialises gluon's CompiledModule for the model VM), coq/extract/c01vm/driver.ml "
+                       "(function-table flattening, extern -> built-in mapping, printing)")
     ctx.trusted.append("harness/src/mg: generator (well-typedness of generated programs is re-checked by gluon's own type checker), "
                        "Gluon printer (two styles), value reader mg::value::canon_typed (field names from the static type), "
                        "error classifier mg::run::classify; coq/extract/c01/driver.ml + sexp.ml (reader, name interning, printing)")
@@ -197,7 +297,7 @@ def run(ctx):
             c = parsed[i]
             s = t["shrunk"].get(i) or rep.get(t["classes"].get(i))
             only = bool(c.get("optimize")) and (c.get("sexp"), c.get("style")) not in off_diffs
-            key = classify(c, s["expected"] if s else m, s["observed"] if s else im, s, only)
+            key = localise(t, i, m, im) + classify(c, s["expected"] if s else m, s["observed"] if s else im, s, only)
             e = by_key.setdefault(key, {"count": 0, "first": None, "shrunk": None})
             e["count"] += 1
             if e["first"] is None:
